@@ -89,9 +89,28 @@ def strip_comments(src):
         out.append(src[i]); i += 1
     return "".join(out)
 
-def source_audit():
-    """grep every Lean source of the project for constructs that would void a proof; returns list of hits"""
+def import_closure(modules):
+    """project files (TB.*, Main) reachable from the given modules through `import` lines"""
+    seen, todo = set(), list(modules)
+    while todo:
+        m = todo.pop()
+        if m in seen:
+            continue
+        path = os.path.join(LEAN, *m.split(".")) + ".lean"
+        if not os.path.exists(path):
+            continue
+        seen.add(m)
+        for line in open(path):
+            mm = re.match(r"\s*import\s+(TB(?:\.[A-Za-z0-9_]+)*)\s*$", line)
+            if mm:
+                todo.append(mm.group(1))
+    return seen
+
+def source_audit(modules=None):
+    """grep the Lean sources a property depends on (its theorem module, the driver, and everything they import)
+    for constructs that would void a proof; returns list of hits"""
     hits = []
+    mods = import_closure(list(modules or []) + ["Main"]) if modules else None
     for root, _, files in os.walk(LEAN):
         if ".lake" in root:
             continue
@@ -99,6 +118,10 @@ def source_audit():
             if not fn.endswith(".lean"):
                 continue
             p = os.path.join(root, fn)
+            if mods is not None:
+                rel = os.path.relpath(p, LEAN)[:-5].replace(os.sep, ".")
+                if rel not in mods:
+                    continue
             code = strip_comments(open(p).read())
             for ln, line in enumerate(code.split("\n"), 1):
                 if FORBIDDEN.search(line):
